@@ -594,7 +594,7 @@ NAME_START = ["a", "b", "Z", "_", "À", "Ö", "ø", "˿", "Ͱ", "ͽ", "Ϳ", "῿
               "‌", "⁰", "↏", "Ⰰ", "、", "퟿", "豈", "﷏", "ﷰ", "�",
               "\U00010000", "\U000effff"]
 NAME_REST = ["c", "9", "-", ".", "·", "̀", "ͯ", "‿", "⁀"]
-TEXT_ALPHA = ["a", "b", " ", "\n", "\t", "<", "&", ">", "]", "]]>", "é", "中", "\U0001f600", "'", '"', "\r", "x\ny"]
+TEXT_ALPHA = ["\u00a0", "\u2003", "a", "b", " ", "\n", "\t", "<", "&", ">", "]", "]]>", "é", "中", "\U0001f600", "'", '"', "\r", "x\ny"]
 URIS = ["u", "v", "http://a/b", "urn:x", ""]
 
 
@@ -624,7 +624,7 @@ def random_document(rnd, size=10, non_ascii=True, doctype_free=False):
             return Comment(t)
         v = None
         if rnd.random() < 0.6:
-            v = "".join(rnd.choice(["v", " ", "?", ">", "<", "&", "é", "=", "'"]) for _ in range(rnd.randint(1, 5))).replace("?>", "? ")
+            v = "".join(rnd.choice(["v", " ", "?", ">", "<", "&", "é", "=", "'", "\u00a0", "\u3000", "\u2028", "\u0085"]) for _ in range(rnd.randint(1, 5))).replace("?>", "? ")
             v = v.lstrip(" ")
             if not v:
                 v = None
